@@ -210,7 +210,338 @@ Proof. vm_compute. reflexivity. Qed.
     return "AbiFacts", body, summary
 
 
-GENERATORS = {"abi": gen_abi}
+# ------------------------------------------------------------------ expression parser
+TOKEN = re.compile(r"\s*(?:(\d+\.\d+|\d+)|([A-Za-z_][\w]*(?:::[A-Za-z_]\w*)*(?:\.[A-Za-z_]\w*)*)|(.))")
+
+
+def tokenize(src):
+    out, pos = [], 0
+    src = src.strip()
+    while pos < len(src):
+        m = TOKEN.match(src, pos)
+        if not m:
+            raise TranslateError("cannot tokenise %r" % src[pos:pos + 20])
+        pos = m.end()
+        if m.group(1):
+            out.append(("num", m.group(1)))
+        elif m.group(2):
+            out.append(("id", m.group(2)))
+        elif m.group(3).strip():
+            out.append(("op", m.group(3)))
+    return out
+
+
+class Parser:
+    """expr := term (('+'|'-') term)* ; term := unary (('*'|'/') unary)* ;
+       unary := '*' unary | atom ; atom := '(' expr ')' | id ['(' args ')'] | num"""
+
+    def __init__(self, toks):
+        self.t, self.i = toks, 0
+
+    def peek(self):
+        return self.t[self.i] if self.i < len(self.t) else ("eof", "")
+
+    def eat(self, kind=None, val=None):
+        k, v = self.peek()
+        if (kind and k != kind) or (val is not None and v != val):
+            raise TranslateError("expected %s %s, found %s %r" % (kind, val, k, v))
+        self.i += 1
+        return v
+
+    def expr(self):
+        e = self.term()
+        while self.peek() in (("op", "+"), ("op", "-")):
+            op = self.eat()
+            e = ("add" if op == "+" else "sub", e, self.term())
+        return e
+
+    def term(self):
+        e = self.unary()
+        while self.peek() in (("op", "*"), ("op", "/")):
+            op = self.eat()
+            e = ("mul" if op == "*" else "div", e, self.unary())
+        return e
+
+    def unary(self):
+        if self.peek() == ("op", "*"):
+            self.eat()
+            return ("deref", self.unary())
+        return self.atom()
+
+    def atom(self):
+        k, v = self.peek()
+        if (k, v) == ("op", "("):
+            self.eat()
+            e = self.expr()
+            self.eat("op", ")")
+            return e
+        if k == "num":
+            self.eat()
+            return ("num", v)
+        if k == "id":
+            self.eat()
+            if self.peek() == ("op", "("):
+                self.eat()
+                args = []
+                if self.peek() != ("op", ")"):
+                    args.append(self.expr())
+                    while self.peek() == ("op", ","):
+                        self.eat()
+                        args.append(self.expr())
+                self.eat("op", ")")
+                return ("call", v, args)
+            return ("var", v)
+        raise TranslateError("unexpected token %s %r in expression" % (k, v))
+
+
+def parse_expr(src):
+    p = Parser(tokenize(src))
+    e = p.expr()
+    if p.peek()[0] != "eof":
+        raise TranslateError("trailing tokens in expression %r" % src)
+    return e
+
+
+# ------------------------------------------------------------------ formulas (C02, C07, C09)
+def fexp_of(e, env):
+    k = e[0]
+    if k in ("add", "sub", "mul", "div"):
+        return "(%s %s %s)" % ({"add": "Add", "sub": "Sub", "mul": "Mul", "div": "Div"}[k], fexp_of(e[1], env), fexp_of(e[2], env))
+    if k == "deref":
+        if e[1] == ("var", "b"):
+            return "Vb"
+        raise TranslateError("unexpected dereference %r" % (e,))
+    if k == "var":
+        if e[1] in env:
+            return env[e[1]]
+        raise TranslateError("unknown variable %r in method.rs" % e[1])
+    if k == "call":
+        if e[1] == "T::from_usize" and len(e[2]) == 1 and e[2][0][0] == "var":
+            base = {"size_a": "Sa", "size_b": "Sb", "size_x": "Sx"}.get(e[2][0][1])
+            if base:
+                return base
+        if e[1] == "T::from_float" and len(e[2]) == 1 and e[2][0][0] == "num":
+            c = {"0.5": "Half", "0.25": "Quarter"}.get(e[2][0][1])
+            if c:
+                return c
+        raise TranslateError("unrecognised call %r in method.rs (a new constant or conversion?)" % (e,))
+    raise TranslateError("numeric literal %r in a formula (a built-in scale or threshold?)" % (e,))
+
+
+def parse_method_fn(name, body):
+    env = {"a": "Va", "merged_dist": "Vmd"}
+    result = None
+    stmts = [s.strip() for s in re.split(r";(?![^{]*\})", body) if s.strip()]
+    for st in stmts:
+        m = re.match(r"^let\s+(\w+)\s*=\s*(.+)$", st, re.S)
+        if m:
+            env[m.group(1)] = fexp_of(parse_expr(m.group(2)), env)
+            continue
+        m = re.match(r"^if\s+(.+?)\s*([<>])\s*(.+?)\s*\{\s*\*b\s*=\s*(.+?)\s*;?\s*\}$", st, re.S)
+        if m:
+            l, op, r, v = fexp_of(parse_expr(m.group(1)), env), m.group(2), fexp_of(parse_expr(m.group(3)), env), fexp_of(parse_expr(m.group(4)), env)
+            if op == ">":
+                l, r = r, l
+            if result is not None:
+                raise TranslateError("%s: more than one assignment to *b" % name)
+            result = "(IfLt %s %s %s Vb)" % (l, r, v)
+            continue
+        m = re.match(r"^\*b\s*=\s*(.+)$", st, re.S)
+        if m:
+            if result is not None:
+                raise TranslateError("%s: more than one assignment to *b" % name)
+            result = fexp_of(parse_expr(m.group(1)), env)
+            continue
+        raise TranslateError("%s: unrecognised statement %r" % (name, st[:80]))
+    if result is None:
+        raise TranslateError("%s: no assignment to *b" % name)
+    return result
+
+
+def iexp_of(e):
+    k = e[0]
+    if k in ("add", "sub", "mul", "div"):
+        return "(%s %s %s)" % ({"add": "IAdd", "sub": "ISub", "mul": "IMul", "div": "IDiv"}[k], iexp_of(e[1]), iexp_of(e[2]))
+    if k == "num" and re.match(r"^\d+$", e[1]):
+        return "(IK %s)" % e[1]
+    if k == "var" and e[1] in ("row", "column"):
+        return {"row": "IR", "column": "IC"}[e[1]]
+    if k == "call" and e[1] == "self.observations" and not e[2]:
+        return "IN"
+    raise TranslateError("unrecognised term %r in the condensed index expression" % (e,))
+
+
+def gen_formulas():
+    src = re.sub(r"//[^\n]*", "", open(os.path.join(kv.REPO, "src/method.rs")).read())
+    fns = {}
+    for m in re.finditer(r"pub fn (\w+)<T: Float>\s*\((.*?)\)\s*\{(.*?)\n\}", src, re.S):
+        fns[m.group(1)] = (re.sub(r"\s+", " ", m.group(2)), m.group(3))
+    want = ["single", "complete", "average", "weighted", "ward", "centroid", "median"]
+    if sorted(fns) != sorted(want):
+        raise TranslateError("method.rs defines %s, expected exactly %s" % (sorted(fns), sorted(want)))
+    sigs = {
+        "single": "a: T, b: &mut T", "complete": "a: T, b: &mut T",
+        "average": "a: T, b: &mut T, size_a: usize, size_b: usize", "weighted": "a: T, b: &mut T",
+        "ward": "a: T, b: &mut T, merged_dist: T, size_a: usize, size_b: usize, size_x: usize,",
+        "centroid": "a: T, b: &mut T, merged_dist: T, size_a: usize, size_b: usize,",
+        "median": "a: T, b: &mut T, merged_dist: T",
+    }
+    lines = []
+    for w in want:
+        params, body = fns[w]
+        if params.strip().rstrip(",") != sigs[w].rstrip(","):
+            raise TranslateError("signature of method::%s changed: %r" % (w, params))
+        lines.append("  | %s => %s" % (w.capitalize(), parse_method_fn(w, body)))
+    csrc = re.sub(r"//[^\n]*", "", open(os.path.join(kv.REPO, "src/condensed.rs")).read())
+    m = re.search(r"fn matrix_to_condensed_idx\(&self, row: usize, column: usize\) -> usize \{(.*?)\n    \}", csrc, re.S)
+    if not m:
+        raise TranslateError("matrix_to_condensed_idx not found")
+    body = re.sub(r"#\[cfg\(kodama_verif\)\]\s*VERIF_ACCESS_COUNT[^;]*;", "", m.group(1))
+    stmts = [s.strip() for s in body.split(";") if s.strip()]
+    asserts = [s for s in stmts if s.startswith("debug_assert!")]
+    exprs = [s for s in stmts if not s.startswith("debug_assert!")]
+    if [re.sub(r"\s+", "", a) for a in asserts] != ["debug_assert!(row<column)", "debug_assert!(column<self.observations())"]:
+        raise TranslateError("debug assertions of matrix_to_condensed_idx changed: %r" % asserts)
+    if len(exprs) != 1:
+        raise TranslateError("matrix_to_condensed_idx has unexpected statements: %r" % exprs)
+    idx = iexp_of(parse_expr(exprs[0]))
+    body = """(* GENERATED by tools/translators.py from /repo/src/method.rs and condensed.rs *)
+Require Import KV.Model.Prelude KV.Model.Methods KV.Model.Condensed.
+
+Definition gen_formula (m : method) : fexp :=
+  match m with
+%s
+  end.
+
+Lemma formulas_agree : forall m, gen_formula m = formula m.
+Proof. intros []; reflexivity. Qed.
+
+Definition gen_cidx_exp : iexp := %s.
+
+Lemma cidx_agree : gen_cidx_exp = cidx_exp.
+Proof. reflexivity. Qed.
+""" % ("\n".join(lines), idx)
+    return "Formulas", body, "7 update formulas of method.rs and the index expression of condensed.rs"
+
+
+# ------------------------------------------------------------------ tables of lib.rs
+VARIANTS = ["Single", "Complete", "Average", "Weighted", "Ward", "Centroid", "Median"]
+
+
+def match_arms(body):
+    arms = []
+    for arm in re.split(r",\s*(?![^()]*\))", body):
+        arm = arm.strip()
+        if not arm:
+            continue
+        m = re.match(r"^(.+?)\s*=>\s*(.+)$", arm, re.S)
+        if not m:
+            raise TranslateError("unrecognised match arm %r" % arm)
+        pats = [p.strip() for p in m.group(1).split("|")]
+        arms.append((pats, m.group(2).strip()))
+    return arms
+
+
+def eval_match(arms, prefix, variant):
+    for pats, val in arms:
+        for p in pats:
+            if p == "_" or p == prefix + variant:
+                return val
+    raise TranslateError("no arm for %s%s" % (prefix, variant))
+
+
+def gen_tables():
+    src = re.sub(r"//[^\n]*", "", open(os.path.join(kv.REPO, "src/lib.rs")).read())
+
+    def fn_match(sig_re, what):
+        m = re.search(sig_re + r"\s*\{\s*match\s+\*?self\s*\{(.*?)\}\s*\}", src, re.S)
+        if not m:
+            raise TranslateError("%s not found in src/lib.rs" % what)
+        return match_arms(m.group(1))
+
+    rs = fn_match(r"fn requires_sorting\(&self\)\s*->\s*bool", "requires_sorting")
+    osq = fn_match(r"fn on_squares\(&self\)\s*->\s*bool", "on_squares")
+    imc = fn_match(r"pub fn into_method_chain\(self\)\s*->\s*Option<MethodChain>", "into_method_chain")
+    t_rs = [eval_match(rs, "Method::", v) for v in VARIANTS]
+    t_os = [eval_match(osq, "Method::", v) for v in VARIANTS]
+    t_mc = []
+    for v in VARIANTS:
+        val = eval_match(imc, "Method::", v)
+        if val == "None":
+            t_mc.append("None")
+        else:
+            m = re.match(r"^Some\(MethodChain::(\w+)\)$", val)
+            if not m or m.group(1) not in VARIANTS:
+                raise TranslateError("into_method_chain: unrecognised value %r" % val)
+            t_mc.append("(Some %s)" % m.group(1))
+    for t in t_rs + t_os:
+        if t not in ("true", "false"):
+            raise TranslateError("non-boolean table value %r" % t)
+    # MethodChain::into_method
+    m = re.search(r"pub fn into_method\(self\)\s*->\s*Method\s*\{\s*match self\s*\{(.*?)\}\s*\}", src, re.S)
+    if not m:
+        raise TranslateError("MethodChain::into_method not found")
+    im = []
+    for pats, val in match_arms(m.group(1)):
+        mm = re.match(r"^Method::(\w+)$", val)
+        if len(pats) != 1 or not pats[0].startswith("MethodChain::") or not mm:
+            raise TranslateError("into_method: unrecognised arm %r => %r" % (pats, val))
+        im.append("(%s, %s)" % (pats[0][len("MethodChain::"):], mm.group(1)))
+
+    def from_str(ty):
+        m = re.search(r"impl FromStr for %s\s*\{.*?match s\s*\{(.*?)\}\s*\}\s*\}" % ty, src, re.S)
+        if not m:
+            raise TranslateError("FromStr for %s not found" % ty)
+        out = []
+        for pats, val in match_arms(m.group(1)):
+            if pats == ["_"]:
+                if not val.startswith("Err("):
+                    raise TranslateError("FromStr for %s: wildcard arm does not reject" % ty)
+                continue
+            mm = re.match(r"^Ok\(%s::(\w+)\)$" % ty, val)
+            if len(pats) != 1 or not re.match(r'^"[^"]*"$', pats[0]) or not mm:
+                raise TranslateError("FromStr for %s: unrecognised arm %r => %r" % (ty, pats, val))
+            out.append("(%s, %s)" % (coq_str(pats[0][1:-1]), mm.group(1)))
+        return out
+
+    fs_m = from_str("Method")
+    fs_c = from_str("MethodChain")
+    # dispatch of linkage_with
+    m = re.search(r"pub fn linkage_with<T: Float>\(.*?\)\s*\{(.*?)\n\}", src, re.S)
+    if not m:
+        raise TranslateError("linkage_with not found")
+    disp = re.sub(r"\s+", "", m.group(1))
+    want = ("letmatrix=condensed_dissimilarity_matrix;ifletMethod::Single=method{mst_with(state,matrix,observations,steps);}"
+            "elseifletSome(method)=method.into_method_chain(){nnchain_with(state,matrix,observations,method,steps);}"
+            "else{generic_with(state,matrix,observations,method,steps);}")
+    if disp != want:
+        raise TranslateError("the dispatch in linkage_with changed: %r" % disp[:300])
+    body = """(* GENERATED by tools/translators.py from /repo/src/lib.rs *)
+Require Import KV.Model.Prelude KV.Model.Methods KV.Model.Cli.
+From Coq Require Import String.
+Local Open Scope string_scope.
+
+Definition all_methods := [Single; Complete; Average; Weighted; Ward; Centroid; Median].
+Definition gen_requires_sorting : list bool := %s.
+Definition gen_on_squares : list bool := %s.
+Definition gen_into_method_chain : list (option method) := %s.
+Definition gen_into_method : list (method * method) := %s.
+Definition gen_from_str_method : list (string * method) := %s.
+Definition gen_from_str_chain : list (string * method) := %s.
+
+Lemma tables_agree :
+  gen_requires_sorting = map requires_sorting all_methods
+  /\ gen_on_squares = map on_squares all_methods
+  /\ gen_into_method_chain = map (fun m => if chain_capable m then Some m else None) all_methods
+  /\ gen_into_method = map (fun m => (m, m)) (filter chain_capable all_methods)
+  /\ gen_from_str_method = method_names
+  /\ gen_from_str_chain = chain_names.
+Proof. repeat split; reflexivity. Qed.
+""" % (coq_list(t_rs), coq_list(t_os), coq_list(t_mc), coq_list(im), coq_list(fs_m), coq_list(fs_c))
+    return "Tables", body, "requires_sorting, on_squares, into_method_chain, into_method, FromStr x2, linkage_with dispatch"
+
+
+GENERATORS = {"abi": gen_abi, "formulas": gen_formulas, "tables": gen_tables}
 
 
 def run(name):
